@@ -188,6 +188,11 @@ def _ops():
                                                            lambda s, sp: setattr(s.ins.cases[0], "value", "Abc")))
     op("switch-bad-case-value", "case-unknown-enum-member")((lambda s, sp: s.ins is not None and s.ins.kind == "switch" and s.ins.cases and not s.ins.cases[0].default and not str(s.ins.cases[0].value).isdigit(),
                                                              lambda s, sp: setattr(s.ins.cases[0], "value", "NoSuchMember")))
+    # a name that is nearly right: another case, a stray underscore, the spelling the member has in the generated code
+    op("switch-bad-case-value", "case-near-miss-spelling")((lambda s, sp: s.ins is not None and s.ins.kind == "switch" and s.ins.cases and not s.ins.cases[0].default and not str(s.ins.cases[0].value).isdigit() and _near_miss(str(s.ins.cases[0].value), _members_of_switch(s, sp)) is not None,
+                                                            lambda s, sp: setattr(s.ins.cases[0], "value", _near_miss(str(s.ins.cases[0].value), _members_of_switch(s, sp)))))
+    op("switch-bad-case-value", "case-python-spelling-of-None")((lambda s, sp: s.ins is not None and s.ins.kind == "switch" and s.ins.cases and not s.ins.cases[0].default and "None" in _members_of_switch(s, sp) and "None_" not in _members_of_switch(s, sp) and not any(str(c.value) == "None" for c in s.ins.cases[1:]),
+                                                                 lambda s, sp: setattr(s.ins.cases[0], "value", "None_")))
     op("switch-bad-case-value", "case-value-missing")((lambda s, sp: s.ins is not None and s.ins.kind == "switch" and s.ins.cases and not s.ins.cases[0].default,
                                                        lambda s, sp: setattr(s.ins.cases[0], "value", None)))
     op("lone-default-case", "only-default")((lambda s, sp: s.ins is not None and s.ins.kind == "switch",
@@ -252,6 +257,22 @@ def _unsuitable(v, sp):
         return True
     t = sp.types().get(base)
     return t is not None and not hasattr(t[0], "values")
+
+
+def _near_miss(name, members):
+    """A spelling close to `name` that is not a member (None when every candidate happens to be one)."""
+    for cand in (name + "_", name.lower(), name.upper(), "_" + name, name.swapcase()):
+        if cand != name and cand not in members:
+            return cand
+    return None
+
+
+def _members_of_switch(s, sp):
+    f = s.names.get(s.ins.field)
+    if f is None or f.kind != "field":
+        return ()
+    ent = sp.types().get(f.type.split(":")[0])
+    return tuple(v[0] for v in getattr(ent[0], "values", ()) or ()) if ent else ()
 
 
 def _switch_on_int(s, sp):
@@ -406,6 +427,10 @@ def _type_ops():
         ("unknown-packet-action", "action-unknown", packet_mut(lambda sp, p, pk, r: setattr(pk, "action", "NoSuchAction"))),
         ("unknown-packet-family", "family-removed-from-enum", packet_mut(lambda sp, p, pk, r: _drop_enum_value(sp, "PacketFamily", pk.family))),
         ("unknown-packet-action", "action-removed-from-enum", packet_mut(lambda sp, p, pk, r: _drop_enum_value(sp, "PacketAction", pk.action))),
+        ("unknown-packet-family", "family-near-miss-spelling", packet_mut(lambda sp, p, pk, r: _set_near_miss(sp, pk, "family", "PacketFamily"))),
+        ("unknown-packet-action", "action-near-miss-spelling", packet_mut(lambda sp, p, pk, r: _set_near_miss(sp, pk, "action", "PacketAction"))),
+        ("unknown-packet-family", "family-python-spelling-of-None", packet_mut(lambda sp, p, pk, r: _rename_enum_value(sp, "PacketFamily", "family", pk.family, "None") and setattr(pk, "family", "None_"))),
+        ("unknown-packet-action", "action-python-spelling-of-None", packet_mut(lambda sp, p, pk, r: _rename_enum_value(sp, "PacketAction", "action", pk.action, "None") and setattr(pk, "action", "None_"))),
         ("duplicate-packet", "duplicate-in-file", packet_mut(lambda sp, p, pk, r: sp.files[p].packets.append(copy.deepcopy(pk)))),
         ("packet-outside-net", "packet-in-other-dir", packet_mut(lambda sp, p, pk, r: sp.files[r.choice(["", "map", "pub", "net", "pub/server"])].packets.append(copy.deepcopy(pk)))),
         ("packet-missing-attribute", "family-missing", packet_mut(lambda sp, p, pk, r: setattr(pk, "family", None))),
@@ -439,6 +464,42 @@ def instruction_mutants(spec, rng, per_op_placement=3):
                 except Exception:
                     continue
                 yield rule, name, placement + ":" + sites[k].owner[0], clone
+
+
+def _enum_decl(sp, enum_name):
+    for f in sp.files.values():
+        for e in f.enums:
+            if e.name == enum_name:
+                return e
+    return None
+
+
+def _set_near_miss(sp, pk, attr, enum_name):
+    e = _enum_decl(sp, enum_name)
+    if e is None or getattr(pk, attr) is None:
+        return False
+    cand = _near_miss(getattr(pk, attr), tuple(v[0] for v in e.values))
+    if cand is None:
+        return False
+    setattr(pk, attr, cand)
+    return None
+
+
+def _rename_enum_value(sp, enum_name, attr, old, new):
+    """The value `old` of the enum is called `new` from now on, in the declaration and in every packet that names it
+    (the spec stays valid); False when that cannot be done."""
+    e = _enum_decl(sp, enum_name)
+    if e is None or old is None:
+        return False
+    names = [v[0] for v in e.values]
+    if old not in names or (new in names and old != new) or new + "_" in names:
+        return False
+    e.values[:] = [((new,) + tuple(v[1:])) if v[0] == old else v for v in e.values]
+    for f in sp.files.values():
+        for pk in f.packets:
+            if getattr(pk, attr) == old:
+                setattr(pk, attr, new)
+    return True
 
 
 def _drop_enum_value(sp, enum_name, value_name):
